@@ -5,6 +5,7 @@ import ast
 import fnmatch
 import hashlib
 import json
+import os
 import re
 import shutil
 from pathlib import Path
@@ -29,7 +30,7 @@ def gen_project(rng, i):
     uid = 0
     for k in range(nfiles):
         clean = rng.random() < 0.6
-        body = []
+        body, mods = [], []
         imports = {"snapshot"}
         nsites = rng.randint(1, 3)
         for _ in range(nsites):
@@ -46,7 +47,12 @@ def gen_project(rng, i):
                 if rng.random() < 0.3 and news:
                     data = rng.choice(news)          # the same data outsourced twice (also across files)
                 imports.add("outsource")
-                body.append(f"    assert outsource({data!r}) == snapshot()")
+                if rng.random() < 0.3:
+                    # outsourced while the module is imported (a module-level constant, a parametrize value): the -new file exists before the first test runs
+                    mods.append(f"PAGE{uid} = outsource({data!r})")
+                    body.append(f"    assert PAGE{uid} == snapshot()")
+                else:
+                    body.append(f"    assert outsource({data!r}) == snapshot()")
                 if data not in news:
                     news.append(data)
             elif kind == "oldext":
@@ -59,6 +65,8 @@ def gen_project(rng, i):
         src = "from inline_snapshot import " + ", ".join(sorted(imports)) + "\n"
         if any("H()" in b for b in body):
             src += "\n\nclass H:\n    def __repr__(self):\n        return \"<H>\"\n\n    def __eq__(self, other):\n        return True\n"
+        if mods:
+            src += "\n" + "\n".join(mods) + "\n"
         src += "\n\ndef test_a():\n" + "\n".join(body) + "\n"
         if not clean:
             src = src.replace(" == snapshot", "   == snapshot", 1).replace("def test_a():", "def test_a( ):")
@@ -69,7 +77,7 @@ def gen_project(rng, i):
         # unparsable output with exit status 0 is what a misconfigured format-command produces (black in process never
         # does); with a format-command the generated fragments are not formatted one by one, only the whole file is
         setup = "fmtcmd"
-    return {"files": files, "olds": olds, "news": news, "setup": setup, "fmt": fmt}
+    return {"files": files, "olds": olds, "news": news, "setup": setup, "fmt": fmt, "hardlink": i % 5 == 3}
 
 
 def write_project(p, d: Path):
@@ -79,6 +87,10 @@ def write_project(p, d: Path):
     (d / "pyproject.toml").write_text(tool)
     for n, s in p["files"].items():
         (d / n).write_text(s)
+    if p.get("hardlink"):
+        # the first test file has a second name (a hard link in a directory that is not collected)
+        (d / "links").mkdir()
+        os.link(d / sorted(p["files"])[0], d / "links" / "f0.link")
     st = d / ".inline-snapshot" / "external"
     st.mkdir(parents=True)
     (st / ".gitignore").write_text("# ignore all snapshots which are not referred in the source\n*-new.*\n")
